@@ -46,6 +46,13 @@ def _psi(rng, maxangle=np.pi):
     n = random_unit(rng)
     if rng.random() < 0.2:
         n = np.eye(3)[int(rng.integers(3))] * (1 if rng.random() < 0.5 else -1)
+    elif rng.random() < 0.15:
+        # axes in coordinate planes and along face / space diagonals: exact zero components, components of equal magnitude
+        while True:
+            n = rng.integers(-1, 2, size=3).astype(float)
+            if np.any(n):
+                break
+        n = n / np.linalg.norm(n)
     return a * n, ["zero", "tiny", "near_max", "uniform", "loguniform", "max-10^-k"][c]
 
 
